@@ -51,7 +51,7 @@ pub fn transpose<T: Copy>(a: &M<T>, cols: usize) -> M<T> {
 }
 
 // ------------------------------------------------------------------ exact fields
-pub trait Field: Copy + PartialEq + Add<Output = Self> + Sub<Output = Self> + Mul<Output = Self> {
+pub trait Field: Copy + PartialEq + Add<Output = Self> + Sub<Output = Self> + Mul<Output = Self> + 'static {
     fn zero() -> Self;
     fn one() -> Self;
     fn is_zero(&self) -> bool;
